@@ -162,42 +162,7 @@ pub fn check<I: Inputs>(vt: &'static Vt<I>, ctx: &Ctx) -> DeclReport {
     let idem = m.builtin_only();
     let facts = mechanism_facts(m);
     let sig = |w: &str, extra: &str| format!("C09|{}|{w}|{facts}{extra}", I::NAME);
-    let eval = |b: &Bytes| -> Outcome {
-        let special = b.0.is_empty() || b.0.iter().all(|x| *x == 0xFF) || b.0.iter().all(|x| *x == 0) || b.0.len() > 2;
-        match no_panic(|| arb(&b.0)) {
-            Err(p) => {
-                let first = p.lines().find(|l| !l.trim().is_empty()).unwrap_or("").to_string();
-                let kind = if first.contains("generated an invalid value") {
-                    "generated-invalid-value"
-                } else if first.contains("non-empty range") {
-                    "empty-int_in_range"
-                } else if first.contains("overflow") {
-                    "arithmetic-overflow"
-                } else {
-                    "other-panic"
-                };
-                // which rule did the generated value violate? (parsed from the generator's own panic text)
-                let extra = p
-                    .split(|c: char| !c.is_alphanumeric())
-                    .find(|w| w.ends_with("Violated"))
-                    .map(|w| format!("|error={w}"))
-                    .unwrap_or_default();
-                Outcome::fail(true, "panicked", sig(&format!("panic:{kind}"), &extra), "Ok(valid value) or Err(arbitrary::Error)".into(), format!("panic: {}", p.lines().filter(|l| !l.trim().is_empty()).take(3).collect::<Vec<_>>().join(" / ")))
-            }
-            Ok(Err(_)) => Outcome::ok(special, "arbitrary-error"),
-            Ok(Ok(v)) => {
-                let near = v.near_bound(m);
-                let class = if near { "ok-near-bound" } else { "ok" };
-                if let Err(e) = model::validate(m, &v) {
-                    return Outcome::fail(true, class, sig("invalid-value-returned", ""), "value satisfying all validators".into(), format!("Ok({}) violates rule {}", v.to_json(), e.show()));
-                }
-                if idem && !model::sanitize(m, v.clone()).same(&v) {
-                    return Outcome::fail(true, class, sig("unsanitized-value-returned", ""), "sanitized value".into(), format!("Ok({})", v.to_json()));
-                }
-                Outcome::ok(special || near, class)
-            }
-        }
-    };
+    let eval = |b: &Bytes| -> Outcome { eval_bytes(vt, b) };
     rep.exhaustive = true; // all byte strings of length <= 2
     let strat = prop_oneof![proptest::collection::vec(any::<u8>(), 0..16), proptest::collection::vec(any::<u8>(), 0..96), proptest::collection::vec(prop_oneof![Just(0xFFu8), Just(0u8), Just(0x20u8), any::<u8>()], 0..40)].prop_map(Bytes).boxed();
     drive(ctx, &info, &mut rep, byte_inputs(ctx.tier), Some(strat), ctx.n_random(3000, 300_000), &eval);
@@ -284,4 +249,49 @@ pub fn check_c14<I: IntInner>(vt: &'static Vt<I>, ctx: &Ctx) -> DeclReport {
         );
     }
     rep
+}
+
+/// one case of C09 (also the body of the fuzz target)
+pub fn eval_bytes<I: Inputs>(vt: &'static Vt<I>, b: &Bytes) -> Outcome {
+    let Some(arb) = vt.arbitrary else { return Outcome::ok(false, "irrelevant") };
+    let m = vt.model;
+    // "the returned value is sanitized" can be asserted as v == sanitize(v) only for chains of built-in
+    // sanitizers (individually idempotent custom functions do not make the chain idempotent)
+    let idem = m.sans.iter().all(|s| !matches!(s, San::With { .. }));
+    let facts = mechanism_facts(m);
+    let sig = |w: &str, extra: &str| format!("C09|{}|{w}|{facts}{extra}", I::NAME);
+    let special = b.0.is_empty() || b.0.iter().all(|x| *x == 0xFF) || b.0.iter().all(|x| *x == 0) || b.0.len() > 2;
+    match no_panic(|| arb(&b.0)) {
+        Err(p) => {
+            let first = p.lines().find(|l| !l.trim().is_empty()).unwrap_or("").to_string();
+            let kind = if first.contains("generated an invalid value") {
+                "generated-invalid-value"
+            } else if first.contains("non-empty range") {
+                "empty-int_in_range"
+            } else if first.contains("overflow") {
+                "arithmetic-overflow"
+            } else {
+                "other-panic"
+            };
+            // which rule did the generated value violate? (parsed from the generator's own panic text)
+            let extra = p
+                .split(|c: char| !c.is_alphanumeric())
+                .find(|w| w.ends_with("Violated"))
+                .map(|w| format!("|error={w}"))
+                .unwrap_or_default();
+            Outcome::fail(true, "panicked", sig(&format!("panic:{kind}"), &extra), "Ok(valid value) or Err(arbitrary::Error)".into(), format!("panic: {}", p.lines().filter(|l| !l.trim().is_empty()).take(3).collect::<Vec<_>>().join(" / ")))
+        }
+        Ok(Err(_)) => Outcome::ok(special, "arbitrary-error"),
+        Ok(Ok(v)) => {
+            let near = v.near_bound(m);
+            let class = if near { "ok-near-bound" } else { "ok" };
+            if let Err(e) = model::validate(m, &v) {
+                return Outcome::fail(true, class, sig("invalid-value-returned", ""), "value satisfying all validators".into(), format!("Ok({}) violates rule {}", v.to_json(), e.show()));
+            }
+            if idem && !model::sanitize(m, v.clone()).same(&v) {
+                return Outcome::fail(true, class, sig("unsanitized-value-returned", ""), "sanitized value".into(), format!("Ok({})", v.to_json()));
+            }
+            Outcome::ok(special || near, class)
+        }
+    }
 }
